@@ -13,6 +13,11 @@ pub mod c10;
 pub mod c11;
 pub mod c12;
 pub mod c13;
+pub mod c14;
+pub mod c15;
+pub mod c19;
+pub mod c20;
+pub mod routerw;
 pub mod inc;
 pub mod sys;
 pub mod vaults;
@@ -33,6 +38,10 @@ pub fn dispatch(ctx: &Ctx) -> Option<(CheckMeta, Acc)> {
         "C11" => Some(c11::run(ctx)),
         "C12" => Some(c12::run(ctx)),
         "C13" => Some(c13::run(ctx)),
+        "C14" => Some(c14::run(ctx)),
+        "C15" => Some(c15::run(ctx)),
+        "C19" => Some(c19::run(ctx)),
+        "C20" => Some(c20::run(ctx)),
         _ => None,
     }
 }
